@@ -146,6 +146,8 @@ pub fn spec_for(i: usize, rng: &mut Rng) -> WorldSpec {
         n_vertex_entries: [1, 0, 2, 1, 3][i % 5],
         fragment: i % 3 != 1,
         compute: i % 2 == 0 || i % 5 == 3,
+        // structs behind nested fixed arrays in two of three worlds (coprime with the other periods)
+        nested: i % 3 != 2 || i % 7 == 0,
     }
 }
 
